@@ -13,7 +13,7 @@ from sa import dataflow as df
 from sa.index import FuncInfo
 from sa.oracle_domains import DOMAINS
 from sa.oracle_structural import CONDITIONAL, MATERIALISERS, PRODUCT_KINDS, REQUIRED, WRAPPERS
-from sa.resolver import Arg, Resolver, admitted_algorithms, intrinsic_annotations
+from sa.resolver import ANNOTS, Arg, Resolver, admitted_algorithms, intrinsic_annotations
 
 DENSE_METHODS = {"to_dense"}
 
@@ -353,7 +353,14 @@ def spec_tuples(fname, kind, res, idx, intr):
         for p in range(n):
             k = spec[p].rstrip("?")
             if k in ("OP", "OPARR"):
-                doms.append([Arg(kind, intr.get(kind, frozenset()))])
+                # every declared annotation: a conditional rule may outrank the structural one
+                seen, dd = set(), []
+                for v in [frozenset()] + [frozenset({a}) for a in ANNOTS]:
+                    sset = intr.get(kind, frozenset()) | v
+                    if sset not in seen:
+                        seen.add(sset)
+                        dd.append(Arg(kind, sset))
+                doms.append(dd)
             elif k == "ALG":
                 doms.append([Arg(a) for a in admitted_algorithms(idx, res, fname, p)])
             elif k == "INT":
@@ -407,7 +414,7 @@ def run(idx, rep, tier):
                             if c and len(c) == 1:
                                 env[pn] = next(iter(c))
                     path = dens.densifies(rule.func, rule.params[opidx][0], kind, env)
-                    label = f"{fname}({', '.join(a.cls for a in tup)})" + (" [optional argument omitted]" if n < full else "")
+                    label = f"{fname}({', '.join(repr(a) for a in tup)})" + (" [optional argument omitted]" if n < full else "")
                     if path:
                         term = path[-1][0].split(":")[0]
                         key = ("omitted" if n < full else "explicit", term)
